@@ -374,17 +374,24 @@ def _chain(tr: Tr, side: dict) -> list[str]:
           and len(stmts[0].body) == 1 and len(stmts[0].orelse) == 1)
     if not ok:
         tr.err(fn, 'add_sys: unrecognised shape')
-    ins, app = stmts[0].body[0], stmts[0].orelse[0]
-    def call_on_systems(st, meth, nargs):
-        return (isinstance(st, ast.Expr) and isinstance(st.value, ast.Call) and _dotted(st.value.func) == f'self.systems.{meth}'
-                and len(st.value.args) == nargs and ast.unparse(st.value.args[-1]) == '(sys, prefix)')
-    if not call_on_systems(ins, 'insert', 2) or not isinstance(ins.value.args[0], ast.Constant) \
-            or not isinstance(ins.value.args[0].value, int) or ins.value.args[0].value < 0:
-        tr.err(ins, 'add_sys: priority branch is not self.systems.insert(<n>, (sys, prefix))')
-    if not call_on_systems(app, 'append', 1):
-        tr.err(app, 'add_sys: non-priority branch is not self.systems.append((sys, prefix))')
-    out.append(f'Definition chain_prio_index : nat := {ins.value.args[0].value}.')
-    side['chain_prio_index'] = ins.value.args[0].value
+    def action(st):
+        """self.systems.insert(<n>, (sys, prefix)) -> InsertAt n;  self.systems.append((sys, prefix)) -> Append."""
+        if not (isinstance(st, ast.Expr) and isinstance(st.value, ast.Call) and not st.value.keywords
+                and st.value.args and ast.unparse(st.value.args[-1]) == '(sys, prefix)'):
+            tr.err(st, 'add_sys: branch does not add (sys, prefix) to self.systems')
+        fd = _dotted(st.value.func)
+        if fd == 'self.systems.append' and len(st.value.args) == 1:
+            return 'Append', 'append'
+        if fd == 'self.systems.insert' and len(st.value.args) == 2 and isinstance(st.value.args[0], ast.Constant) \
+                and isinstance(st.value.args[0].value, int) and st.value.args[0].value >= 0:
+            return f'(InsertAt {st.value.args[0].value})', f'insert({st.value.args[0].value})'
+        tr.err(st, 'add_sys: branch is neither self.systems.insert(<n>, (sys, prefix)) nor self.systems.append((sys, prefix))')
+
+    pa, pa_s = action(stmts[0].body[0])
+    na, na_s = action(stmts[0].orelse[0])
+    out.append(f'Definition chain_prio_action : ins_action := {pa}.')
+    out.append(f'Definition chain_plain_action : ins_action := {na}.')
+    side['chain_add_sys'] = {'priority': pa_s, 'plain': na_s}
 
     def systems_loop(fn):
         loops = [s for s in fn.body if isinstance(s, ast.For)]
